@@ -97,6 +97,7 @@ Mismatch(t) ==
         IN \/ c.idel # kw.idel \/ c.ianew # kw.ianew \/ (c.isafe # kw.isafe /\ c.isafe # "F")
            \/ Mismatch(c)
 C19_Witness == Copied /\ Mismatch(otree)
+Inv_NoWitness == ~C19_Witness
 
 \* behaviours for replay: one JSON line per finished copy (and per mutation / state after it)
 Emit ==
